@@ -20,6 +20,10 @@ def nontrivial(line, rec):
 
 
 def run(ctx):
+    import clilib
+    clilib.stream(ctx, "cliverdict", gen.cliverdict_lines(ctx.rng.fork("cliverdict"), 5, 3, 400 if ctx.quick else 8000, (-1, 0, 1), 5, 5, 20, True),
+                  "cmr-balanced: verdict line vs. the definition-level oracle on the matrix parsed from the input bytes",
+                  lambda c: gen.CLIVERDICT_CODES.get(c, str(c)))
     q = ctx.quick
     lines = []
     bound = 9 if q else 12
